@@ -1,7 +1,7 @@
 import vf
 
 
-def gen(ctx, nl, ns, maxsends, simulate):
+def gen(ctx, nl, ns, maxsends, simulate, maxcancels):
     cfg = """SPECIFICATION SpecGen
 CONSTANTS
   Listeners = %s
@@ -10,9 +10,10 @@ CONSTANTS
   SendCtxMayEnd = TRUE
   ListenerLock = TRUE
   Eager = TRUE
+  MaxCancels = %d
 INVARIANT EmitCase
 CHECK_DEADLOCK FALSE
-""" % (nl, ns, maxsends)
+""" % (nl, ns, maxsends, maxcancels)
     r = ctx.tlc("Bus", None, cfg_text=cfg, workers=1, timeout=1800, simulate=simulate, extra=["-depth", "150"])
     return r.cases()
 
@@ -27,6 +28,7 @@ CONSTANTS
   SendCtxMayEnd = TRUE
   ListenerLock = TRUE
   Eager = FALSE
+  MaxCancels = 9
 VIEW ViewNoHist
 INVARIANTS ClosedOnlyWhenEmpty LockDiscipline AtMostOnce PerSenderFIFO LiveGetsAll
 PROPERTIES NoSendOnClosed CancelCloses SenderNotStuck
@@ -36,10 +38,14 @@ CHECK_DEADLOCK FALSE
     if thorough:
         ctx.mc("Bus", None, cfg_text=mccfg % ("{1, 2, 3}", "{1, 2}", 1), workers=vf.NCPU, timeout=3000)
         ctx.mc("Bus", None, cfg_text=mccfg % ("{1, 2}", "{1}", 2), workers=vf.NCPU, timeout=3000)
-    n = 40000 if thorough else 2500
-    cases = gen(ctx, "{1, 2}", "{1, 2}", 2, "num=%d" % n)
-    cases += gen(ctx, "{1, 2, 3}", "{1, 2}", 1, "num=%d" % n)
-    cases += gen(ctx, "{1, 2}", "{1, 2, 3}", 1, "num=%d" % (n // 2))
+    n = 40000 if thorough else 1000
+    cases = gen(ctx, "{1, 2}", "{1, 2}", 2, "num=%d" % n, 2)
+    cases += gen(ctx, "{1, 2, 3}", "{1, 2}", 1, "num=%d" % n, 3)
+    cases += gen(ctx, "{1, 2}", "{1, 2, 3}", 1, "num=%d" % (n // 2), 2)
+    # with only some listeners cancelled the others are still owed every later event: listeners that
+    # register while a send that will garbage-collect is under way, sends after a collection, ...
+    cases += gen(ctx, "{1, 2, 3}", "{1, 2}", 3, "num=%d" % n, 1)
+    cases += gen(ctx, "{1, 2, 3}", "{1, 2}", 2, "num=%d" % n, 2)
     seen, uniq = set(), []
     for c in cases:
         k = repr(c["sched"])
